@@ -42,19 +42,19 @@ CHECKS = {
     },
     "C02": {
         "technique": "validity-oracle fuzzing: filter x value and tag-argument matrices, hostile-data templates, token soup; exception-type predicate bucketed by call site",
-        "text": "Every registered filter x typed value pool (pairwise-complete in the thorough tier), 44 tag shapes x pool x pool, random templates with hostile data and mutated/soup sources are parsed and rendered sync and async in STRICT, WARN and LAX; anything other than success or a LiquidError subclass is a violation, bucketed by (exception type, innermost liquid/ frame) so each call site is reported once.",
+        "text": "Every registered filter x typed value pool (pairwise-complete in the thorough tier), 44 tag shapes x pool x pool, random templates with hostile data and mutated/soup sources are parsed and rendered sync and async in STRICT, WARN and LAX; anything other than success or a LiquidError subclass is a violation, bucketed by (exception type, innermost liquid/ frame) so each call site is reported once. An 'aftermath' family runs every construct that depends on loop, scope or buffer state after every construct that fails part-way and is tolerated (depth-limit nests, failing filters, missing and recursive partials, resource limits hit mid-render), in the three modes.",
         "design_ref": "DESIGN.md §4 C02",
         "note": "Data domain is None/bool/int/float/str/list/dict/range as the property states; custom drops and bytes are not generated.",
     },
     "C03": {
         "technique": "differential + invariant testing across tolerance modes on valid, mutated and token-soup sources",
-        "text": "Each generated source the lexer accepts is parsed and rendered in STRICT, LAX and WARN. LAX must never raise; WARN must match LAX's output, and the number of errors it suppressed (counted at Environment.error) must equal the number of LiquidWarnings captured; a strict-mode render error must produce a warning in WARN mode; a strict-clean template must render identically in all three modes with no warnings.",
+        "text": "Each generated source the lexer accepts is parsed and rendered in STRICT, LAX and WARN. LAX must never raise; WARN must match LAX's output, and the number of errors it suppressed (counted at Environment.error) must equal the number of LiquidWarnings captured; a strict-mode render error must produce a warning in WARN mode; a strict-clean template must render identically in all three modes with no warnings. A matrix puts 32 malformed or wrong-kind expressions into 36 tag positions; 15% of the cases are rewritten with CRLF/CR/U+2028/FF line breaks and leading blank lines.",
         "design_ref": "DESIGN.md §4 C03",
         "note": "Does not assert 'STRICT parse fails => WARN warns' (parsers are deliberately lenient outside strict mode). Non-Liquid crashes are C02's scope.",
     },
     "C04": {
         "technique": "round-trip property testing: parse -> str -> parse -> str, plus differential render of original vs re-parsed template",
-        "text": "Random templates over every standard tag with not/parentheses/ternary enabled and hostile literals (quotes, backslashes, newlines, bracketed roots, nested paths, ranges): str(T) must parse, be a fixed point of parse->str, and the re-parsed template must render like the original on 3 data sets. Failures are localised to the smallest single node reproducing them.",
+        "text": "Random templates over every standard tag with not/parentheses/ternary enabled and hostile literals (quotes, backslashes, newlines, bracketed roots, nested paths, ranges): str(T) must parse, be a fixed point of parse->str, and the re-parsed template must render like the original on 3 data sets. Failures are localised to the smallest single node reproducing them. Float literals include values whose Python repr uses an exponent or more than six decimals.",
         "design_ref": "DESIGN.md §4 C04",
         "note": "The nil literal is excluded by construction (known finding C04-nil-prints-empty, pinned by the repo's own tests). Textual equality with the original source is not asserted.",
     },
@@ -66,19 +66,19 @@ CHECKS = {
     },
     "C13": {
         "technique": "model-based exhaustive testing: collections x limit x offset x reversed x cols vs reference loop model",
-        "text": "All collections of length 0..8 (0..4 quick) of every kind x limit x offset (absent, -3..len+3, 1e20) x reversed, tablerow with every cols value, plus random loop sequences sharing offset:continue, break/continue and nested parentloop; each body prints item and every helper and the complete output must equal the reference model's (from/to slicing of the reference implementation, helpers from the position in the kept segment, documented tablerow row/column structure).",
+        "text": "All collections of length 0..8 (0..4 quick) of every kind x limit x offset (absent, -3..len+3, 1e20) x reversed, tablerow with every cols value, plus random loop sequences sharing offset:continue, break/continue and nested parentloop; each body prints item and every helper and the complete output must equal the reference model's (from/to slicing of the reference implementation, helpers from the position in the kept segment, documented tablerow row/column structure). Further relations: else renders iff nothing is visited, under every wrapper; a loop left through a tolerated error (also while being entered, at the depth limit) leaves nothing on the loop stack; ranges whose bounds depend on an outer loop variable or change between two renders of one parsed template.",
         "design_ref": "DESIGN.md §4 C13",
         "note": "Trusts vf/ref/loops.py. continue after a negative offset and cols <= 0 are not asserted.",
     },
     "C25": {
         "technique": "exhaustive small-domain testing of filter contracts vs reference implementations and algebraic laws",
-        "text": "Each documented contract (size, case/whitespace ops, split/join round trip, reverse/sort/sort_natural/uniq/compact/concat/map/where/reject, slice/first/last, truncate, truncatewords, arithmetic, default) is an executable oracle evaluated on complete small typed pools (all strings over a 5-letter alphabet up to length 3/4, all lists over 5 elements up to length 3/4, all pairs of numeric operands incl. huge ints, floats and numeric strings); results are read back exactly through the json filter, and inputs are checked to be unchanged.",
+        "text": "Each documented contract (size, case/whitespace ops, split/join round trip, reverse/sort/sort_natural/uniq/compact/concat/map/where/reject, slice/first/last, truncate, truncatewords, arithmetic, default) is an executable oracle evaluated on complete small typed pools (all strings over a 5-letter alphabet up to length 3/4, all lists over 5 elements up to length 3/4, all pairs of numeric operands incl. huge ints, floats and numeric strings); results are read back exactly through the json filter, and inputs are checked to be unchanged (snapshot taken before the render). where/reject take explicit falsy targets; default takes allow_false.",
         "design_ref": "DESIGN.md §4 C25",
         "note": "Exhaustive only for the stated pools. Ambiguous documentation (round .5 ties, negative float modulo, slice before the start, mixed-type sort) is not asserted.",
     },
     "C26": {
         "technique": "reference-formatter testing: generated messages x filters/tag x counts vs gettext.NullTranslations",
-        "text": "Random messages over an alphabet rich in percent forms are pushed through the translate tag and the t/gettext/ngettext/pgettext/npgettext filters (message as literal and variable) with every count in the pool; output must equal the message with only %(name)s placeholders substituted (%% kept or collapsed; tag modulo whitespace runs), and the plural form must be the one gettext.NullTranslations selects.",
+        "text": "Random messages over an alphabet rich in percent forms are pushed through the translate tag and the t/gettext/ngettext/pgettext/npgettext filters (message as literal and variable; message variables from the context or passed as keyword arguments: literal, nil, undefined, number, another variable) with every count in the pool; output must equal the message with only %(name)s placeholders substituted (%% kept or collapsed; tag modulo whitespace runs), and the plural form must be the one gettext.NullTranslations selects.",
         "design_ref": "DESIGN.md §4 C26",
         "note": "Uses Python's gettext.NullTranslations as the plural oracle. Message catalogues are out of scope (the property is about their absence).",
     },
@@ -96,7 +96,7 @@ ENGINES[0]["serves_properties"] = sorted(CHECKS)
 
 CHECKS["C27"] = {
     "technique": "exhaustive model-based testing: macro signatures x call shapes, nested with blocks vs reference binder",
-    "text": "Every macro signature with 0-3 parameters (no default / literal default / late-bound variable default) x every call with 0-4 positional and 0-3 keyword arguments (matching, foreign and duplicate names) is rendered with a body printing every parameter, args and kwargs and compared with a reference binder written from docs/optional_tags.md; random nested with blocks are compared with a scope-stack model (arguments evaluated in the enclosing scope, visible only inside, outer values restored).",
+    "text": "Every macro signature with 0-3 parameters (no default / literal default / late-bound variable default) x every call with 0-4 positional and 0-3 keyword arguments (matching, foreign and duplicate names; one argument nil in turn) is rendered with a body printing every parameter, args and kwargs and compared with a reference binder written from docs/optional_tags.md; random nested with blocks are compared with a scope-stack model (arguments evaluated in the enclosing scope, visible only inside, outer values restored).",
     "design_ref": "DESIGN.md §4 C27",
     "note": "Trusts the ~40-line binder in vf/props/c27_macro_with.py. Argument values are string literals and one late-bound variable; expression-valued arguments are covered by C01/C02 templates.",
 }
@@ -124,7 +124,7 @@ CHECKS["C06"] = {
 
 CHECKS["C07"] = {
     "technique": "invariant testing under limit sweeps with an independent size measure (recording RenderContext subclass)",
-    "text": "Random multi-byte templates with captures, partials and loops are rendered unlimited (U bytes, measured namespace maximum s) and then under sweeps of output_stream_limit and local_namespace_limit (0, 1, value-1, value, value+1, 2*value, 2 random): a completed render must return <= L bytes, U > L must raise OutputStreamLimitError, and a completed render must never have held locals whose independently measured size (own + ancestors through parent_context, recomputed after every accepted assign/capture) exceeded M.",
+    "text": "Random multi-byte templates with captures, partials and loops are rendered unlimited (U bytes, measured namespace maximum s) and then under sweeps of output_stream_limit and local_namespace_limit (0, 1, value-1, value, value+1, 2*value, 2 random): a completed render must return <= L bytes, U > L must raise OutputStreamLimitError, and a completed render must never have held locals whose independently measured size (own + ancestors through parent_context, recomputed after every accepted assign/capture) exceeded M. An enumerated family enters a partial that binds locals in 18 ways (render/include, plain, with, for array, nested, inside loops and captures) from parents of three sizes, so that the peak lies inside the partial.",
     "design_ref": "DESIGN.md §4 C07",
     "note": "Instrumentation is a RenderContext subclass installed through Environment.template_class (no source hook); reads the private attribute RenderContext.parent_context.",
 }
@@ -137,20 +137,20 @@ CHECKS["C08"] = {
 
 CHECKS["C16"] = {
     "technique": "differential testing across undefined types + exception-type predicates on targeted missing-variable uses",
-    "text": "54 targeted uses of a missing variable (output, iteration, comparison, 39 filters, filter arguments) x 5 kinds of missing path must raise UndefinedError under StrictUndefined and never under the default type; random templates rendered with data from which ~30% of keys/sub-paths were deleted must, whenever a strict type renders successfully, produce exactly the default type's output.",
+    "text": "54 targeted uses of a missing variable (output, iteration, comparison, 39 filters, filter arguments) x 19 kinds of missing path (absent keys, out-of-range indexes, through nil, through a number) must raise UndefinedError under StrictUndefined and never under the default type; at these and at 64 further positions (comparison with nil/empty/blank/false, truthiness, every filter argument position) whatever strict type lets the render succeed must give the default type's output; random templates rendered with data from which ~30% of keys/sub-paths were deleted must, whenever a strict type renders successfully, produce exactly the default type's output.",
     "design_ref": "DESIGN.md §4 C16",
     "note": "The default type may still raise other Liquid errors (type errors by C12).",
 }
 CHECKS["C17"] = {
     "technique": "invariant testing (data/template snapshots) + history-based differential testing against isolated evaluation in a pristine forked process",
-    "text": "(a) after rendering random filter-heavy templates the data must equal a type- and order-aware snapshot taken before, the template's str() and structural fingerprint must be unchanged and a second render must agree. (b) histories of renders in shared environments, built from templates that reach memoised or stateful code and from equal-but-distinct values (1/1.0/True, str/Markup, equal instants in different zones, date/datetime), are compared step by step with the same render evaluated alone: in a fresh environment with known caches cleared, and in a process forked from a zygote that has imported liquid but never rendered.",
+    "text": "(a) after rendering random filter-heavy templates the data must equal a type- and order-aware snapshot taken before, the template's str() and structural fingerprint must be unchanged and a second render must agree. (b) histories of renders in shared environments, built from templates that reach memoised or stateful code and from equal-but-distinct values (1/1.0/True, str/Markup, equal instants in different zones, date/datetime), are compared step by step with the same render evaluated alone: in a fresh environment with known caches cleared, and in a process forked from a zygote that has imported liquid but never rendered. 30% of the histories fetch their templates by name from a (caching) loader, with request globals, without, or with render arguments only.",
     "design_ref": "DESIGN.md §4 C17",
     "note": "Current-time constructs and source edits are excluded as the property allows. Process isolation is run by one shard only (fork throughput).",
 }
 
 CHECKS["C14"] = {
     "technique": "model-based testing: random binding programs x layered data vs a reference interpreter",
-    "text": "Random programs in a small binding language (assign, capture, for, tablerow, with, include with/for/as + keyword arguments, increment/decrement, path output) bind the same four names at every layer (block scopes, locals, render arguments, front matter, template globals, environment globals, user 'now', counters) in arbitrary nesting; the engine's output must equal that of a 200-line reference interpreter implementing the documented lookup order and path rules (dotted, quoted, negative index, nested variable, size/first/last).",
+    "text": "Random programs in a small binding language (assign, capture, for, tablerow, with, include with/for/as + keyword arguments, increment/decrement, path output) bind the same four names at every layer (block scopes, locals, render arguments, front matter, template globals, environment globals, user 'now', counters) in arbitrary nesting; the engine's output must equal that of a 200-line reference interpreter implementing the documented lookup order and path rules (dotted, quoted, negative index, nested variable, bracketed root naming another variable, size/first/last).",
     "design_ref": "DESIGN.md §4 C14",
     "note": "Trusts vf/ref/scope.py. A boolean used as an index is treated as unspecified (not asserted).",
 }
@@ -163,55 +163,55 @@ CHECKS["C15"] = {
 
 CHECKS["C05"] = {
     "technique": "validity-predicate + metamorphic fuzzing of filter chains and tags under autoescape with hostile data",
-    "text": "With autoescape on, (A) random templates and direct filter chains (1-4 filters from every built-in string/array/math filter except the HTML-generating ones) fed with data strings rich in <>&'\" must produce output with no raw special character, and (A') every & must start a complete entity when no cutting filter is involved; (B) Markup and __html__ values must pass through 14 output shapes unchanged; (C) for data without special characters the output must be identical with autoescape off - asserted only when a filter spy saw no special character in any intermediate string.",
+    "text": "With autoescape on, (A) random templates and direct filter chains (1-4 filters from every built-in string/array/math filter except the HTML-generating ones) fed with data strings rich in <>&'\" must produce output with no raw special character, and (A') every & must start a complete entity when no cutting filter is involved; (B) Markup and __html__ values must pass through 14 output shapes unchanged; (C) for data without special characters the output must be identical with autoescape off - asserted only when a filter spy saw no special character in any intermediate string. 27 shapes feed every argument position of the translation filters and the translate tag from hostile data.",
     "design_ref": "DESIGN.md §4 C05",
     "note": "safe, newline_to_br, script_tag, stylesheet_tag, date, json, escapejs and tablerow are outside the property's domain. Template text/literals contain no special characters by construction.",
 }
 CHECKS["C18"] = {
     "technique": "model-based testing: generated inheritance chains vs a reference flattener",
-    "text": "Chains of 1-4 templates over four block names (nested blocks, partial overrides, required flags, block.super at any depth, leaf text before extends, text outside blocks, variables and a loop around blocks in the root) and faulty chains (circular extends, duplicate block names, mismatched endblock) are rendered and compared with a 60-line flattener that substitutes most-derived definitions and unwinds super; error classes must match for the fault cases.",
+    "text": "Chains of 1-4 templates over four block names (nested blocks, partial overrides, required flags, block.super at any depth, leaf text before extends, text outside blocks, variables and a loop around blocks in the root, the extends tag at top level or inside an if/unless/else/case/for/with block that is entered) and faulty chains (circular extends, duplicate block names, mismatched endblock) are rendered and compared with a 60-line flattener that substitutes most-derived definitions and unwinds super; error classes must match for the fault cases.",
     "design_ref": "DESIGN.md §4 C18",
     "note": "Mutually containing blocks across templates (no finite flattening) only need to end in a Liquid error. Duplicate blocks in a template rendered on its own are not asserted.",
 }
 
 CHECKS["C22"] = {
     "technique": "validity-oracle fuzzing of template names against a sandbox directory tree with decoys and symlinks",
-    "text": "Every process builds a throw-away tree (search directories with uniquely labelled files, decoys outside, symlinks out of / into the tree and to a prefix-sharing sibling, a throw-away package) and requests names assembled from '..', '.', absolute prefixes, NUL/control characters, unicode, 300-character components and link names from 9 loader configurations (FileSystemLoader variants, CachingFileSystemLoader, PackageLoader), sync and async. A result must be TemplateNotFoundError or a template whose path is lexically - and with reject_symlinks really - inside a search directory and whose text is that file's content.",
+    "text": "Every process builds a throw-away tree (search directories with uniquely labelled files, decoys outside, symlinks out of / into the tree and to a prefix-sharing sibling, a throw-away package) and requests names assembled from '..', '.', absolute prefixes, NUL/control characters, unicode, 300-character components and link names from 9 loader configurations (FileSystemLoader variants, CachingFileSystemLoader, PackageLoader), sync and async. A result must be TemplateNotFoundError or a template whose path is lexically - and with reject_symlinks really - inside a search directory and whose text is that file's content. For caching loaders the same name must resolve identically on a loader whose cache already holds the tree's ordinary templates.",
     "design_ref": "DESIGN.md §4 C22",
     "note": "POSIX file system semantics of this sandbox (tmpfs/ext4); Windows drive/UNC names are only fed as plain strings.",
 }
 
 CHECKS["C23"] = {
     "technique": "model-based history testing: request/edit sequences on caching loaders vs their non-caching twins",
-    "text": "Random histories (3-12 steps) of synchronous and asynchronous requests - direct with namespace keyword / request globals, or through include+render tags with the namespace in the render context - interleaved with source edits, for five caching loaders (dict, choice, file system, and namespace-aware dict/file loaders composed with CachingLoaderMixin as documented) with capacity 1-4, auto_reload on/off and namespace_key set/unset; after every request the name, source, globals and rendered text (or error class) must equal those of the same loader without the mixin reading the same store.",
+    "text": "Random histories (3-12 steps) of synchronous and asynchronous requests - direct with namespace keyword / request globals, or through include+render tags with the namespace in the render context - interleaved with source edits and removals, for five caching loaders (dict, choice, file system, and namespace-aware dict/file loaders composed with CachingLoaderMixin as documented) with capacity 1-4, auto_reload on/off and namespace_key set/unset; after every request the name, source, globals and rendered text (or error class) must equal those of the same loader without the mixin reading the same store.",
     "design_ref": "DESIGN.md §4 C23",
     "note": "With auto_reload off any earlier version of that same (namespace, name) is accepted. File edits bump mtime explicitly (os.utime), so mtime granularity cannot flake.",
 }
 
 CHECKS["C09"] = {
     "technique": "generated-input search with a deterministic step budget as termination oracle (prefix/sequence enumeration, skeleton and mutation fuzzing, recursive-family enumeration)",
-    "text": "(a) every prefix of generated sources, every short sequence of block/branch/end tags, random block skeletons with misplaced branch tags and missing end tags, mutated sources, token soup and pumped lexeme fragments must parse to a template or a LiquidError within a line-event budget linear in the source length (counted with sys.monitoring over liquid/ code); (b) families of 1-3 mutually recursive templates (include, render, render-for, include-for, dynamic include, extends cycles, macro self-call, block.super chains) with the recursive edge under 0..30 nested blocks of 8 kinds must finish within 3e6 line events: with ContextDepthError / TemplateInheritanceError in strict mode (never RecursionError, never a generic error wrapping one), silently in lax mode.",
+    "text": "(a) every prefix of generated sources, every short sequence of block/branch/end tags, random block skeletons with misplaced branch tags and missing end tags, mutated sources, token soup and pumped lexeme fragments must parse to a template or a LiquidError within a line-event budget linear in the source length (counted with sys.monitoring over liquid/ code); (b) families of 1-3 mutually recursive templates (include, render, render-for, include-for, dynamic include, extends cycles, macro self-call, block.super chains) with the recursive edge under 0..30 nested blocks of 8 kinds must finish within 3e6 line events: with ContextDepthError / TemplateInheritanceError in strict mode (never RecursionError, never a generic error wrapping one), silently in lax mode. Families run through both render APIs; fan-out families (1-3 recursive calls per level) also put the calls inside a block that overrides a base template's block and inside a macro; at block depth <= 3 a depth error that is a converted RecursionError is a failure (the stack was exhausted before the limit counted).",
     "design_ref": "DESIGN.md §4 C09",
     "note": "Termination is observed as 'within budget', never proved. A hang is turned into a budget overrun (the callback raises), so the check itself always finishes.",
 }
 
 CHECKS["C20"] = {
     "technique": "generated-input search with a source-text oracle (every reported span must index its template's source at the reported name; error positions checked against an independent line/column walk)",
-    "text": "Generated multi-line templates (LF, CRLF, form feed, U+2028, U+0085 and non-ASCII text; liquid tags, nested and bracketed paths, filters, ternaries, macros) with two generated partials: every Span of analyze() and of analyze_tags must name a loaded template and index its source at the reported variable root / local / filter / tag name, and Span.line_col must equal an independent computation. Prefixes, mutations, token soup and fixed malformed sources parsed in strict mode: a raised LiquidError must carry a token whose source is the parsed text with start_index inside it, str(error) must not raise, and the reported line:column must match the index and appear in the message.",
+    "text": "Generated multi-line templates (LF, CRLF, form feed, U+2028, U+0085 and non-ASCII text; liquid tags, nested and bracketed paths, filters, ternaries, macros) with three generated partials (names with dots): every Span of analyze() and of analyze_tags must name a loaded template and index its source at the reported variable root / local / filter / tag name, and Span.line_col must equal an independent computation. Prefixes, mutations, token soup and fixed malformed sources parsed in strict mode: a raised LiquidError must carry a token whose source is the parsed text with start_index inside it, str(error) must not raise, and the reported line:column must match the index and appear in the message.",
     "design_ref": "DESIGN.md §4 C20",
     "note": "A variable whose root is itself a bracketed path ([a.b].c) is located at its opening bracket.",
 }
 
 CHECKS["C19"] = {
     "technique": "generated-input search with a dynamic-trace oracle (the render is traced from the harness and every traced read, filter and tag must be in the static report)",
-    "text": "Templates that call the same generated partials 2-4 times (include / render, plain, with keyword arguments, with/for ... as name) from under different scopes (for, tablerow, with, capture, macro, for-else, case, after an assign), fully generated templates with two generated partials, and one- or two-node templates; rendered in lax mode (25% asynchronously) with every pool name in the render arguments while Node.render, Path.evaluate and RenderContext.filter are wrapped by the harness. Every path evaluated must be in analysis.variables (root and static segments), every filter looked up in analysis.filters, every tag node rendered in analysis.tags; a root that resolved from the top-level render arguments, that no active enclosing block binds and that no template assigns anywhere must be in analysis.globals.",
+    "text": "Templates that call the same generated partials 2-4 times (include / render, plain, with keyword arguments, with/for ... as name) from under different scopes (for, tablerow, with, capture, macro, for-else, case, after an assign), fully generated templates with two generated partials, and one- or two-node templates; rendered in lax mode (25% asynchronously) with every pool name in the render arguments (and every other word of the sources) while Node.render, Path.evaluate, RenderContext.filter and - for lookups a tag or filter makes on its own - RenderContext.get/get_async/resolve are wrapped by the harness. Every path evaluated must be in analysis.variables (root and static segments), every filter looked up in analysis.filters, every tag node rendered in analysis.tags; a root that resolved from the top-level render arguments, that no active enclosing block binds and that no template assigns anywhere must be in analysis.globals.",
     "design_ref": "DESIGN.md §4 C19",
     "note": "No repository hook is needed: the trace is taken by wrapping library methods in the harness process. Dynamic partial names and translation tags/filters are outside the generated domain (stated in the evidence). The globals clause is applied conservatively: a name assigned anywhere in any template is exempt.",
 }
 
 CHECKS["C11"] = {
     "technique": "metamorphic testing (delimiter rewrite of generated templates) and model-based history testing (interleaved environments vs each environment's own operations alone)",
-    "text": "(a) Generated templates with a generated partial and template comments are written with placeholder delimiters and instantiated with two delimiter sets (default or random vs random: strings of 1-4 characters over punctuation, regex metacharacters and letters, incl. the liquid-tag comment marker derived from the comment delimiter); unless an occurrence scan finds a collision, both environments must give the same result. A derived relation renders text that looks like default delimiters under custom delimiters. (b) Histories of 5-18 operations (create, parse into a slot, render a slot, add a filter, add a tag) over 2-4 environments differing in delimiters, tolerance, extra tags and registered tags/filters must give every environment the results its own operations give alone (every sixteenth history in a pristine forked process, the others in-process with memo caches cleared and a unique nonce in every source).",
+    "text": "(a) Generated templates with a generated partial and template comments are written with placeholder delimiters and instantiated with two delimiter sets (default or random vs random: strings of 1-4 characters over punctuation, regex metacharacters and letters, incl. the liquid-tag comment marker derived from the comment delimiter); unless an occurrence scan finds a collision, both environments must give the same result. A derived relation renders text that looks like default delimiters under custom delimiters. (b) Histories of 5-18 operations (create, parse into a slot, render a slot, add a filter, add a tag) over 2-4 environments differing in delimiters, tolerance, extra tags and registered tags/filters must give every environment the results its own operations give alone (every sixteenth history in a pristine forked process, the others in-process with memo caches cleared and a unique nonce in every source). Environments also differ in undefined type and strict_filters, may be the implicit ones of liquid.Template(), and may use delimiter sets one character-move apart (47 boundary-shifted siblings, compared with a pristine process); 300 enumerated pair histories use two environments one setting apart in turn.",
     "design_ref": "DESIGN.md §4 C11",
     "note": "Collision is decided by scanning the final source for delimiter occurrences outside their placements, which also rejects delimiter strings that contain one another.",
 }
